@@ -284,14 +284,14 @@ func (f *Frame) evalRecv(st *State, cal callee) (*Term, types.Type) {
 	} else {
 		loc = f.selectPath(st, cal.recvX, fieldPath)
 	}
-	// pointer to a struct-typed field of a heap object, or to a local: copy-in/copy-out
-	v := f.load(st, loc)
-	r := f.alloc(st)
-	f.store(st, f.ptrLoc(r, t), v)
-	if _, isTemp := loc.(LTemp); !isTemp {
-		f.pendingCopyBack = append(f.pendingCopyBack, copyBack{ref: r, typ: t, loc: loc})
+	// pointer to a struct-typed field of a heap object, or to a local: interior pointer
+	if _, isTemp := loc.(LTemp); isTemp {
+		v := f.load(st, loc)
+		r := f.alloc(st)
+		f.store(st, f.ptrLoc(r, t), v)
+		return r, types.NewPointer(t)
 	}
-	return r, types.NewPointer(t)
+	return f.interiorRef(st, loc), types.NewPointer(t)
 }
 
 func (f *Frame) havocResults(st *State, sig *types.Signature) []*Term {
